@@ -148,6 +148,11 @@ func genC06(t *rapid.T, concurrent bool) C06Case {
 			q = c06Req{"GET", sv.Root + "/none", ""} // 404 inside a service
 		case x == 7:
 			q = c06Req{"POST", sv.Root + rt.Path, rt.Variant} // 405
+			if rapid.Bool().Draw(t, "preflightshaped") {
+				// looks like a CORS preflight (OPTIONS + Access-Control-Request-Method); no route has
+				// that method, so it fails routing like any other request does
+				q.Method = "OPTIONS"
+			}
 		case x == 8 && c.HWF:
 			q = c06Req{"GET", "/hwf/x", ""}
 		default:
@@ -405,7 +410,13 @@ func checkC06(c C06Case, partName string) (vs []*Violation) {
 			if r.Variant != "" {
 				rb.If(func(hr *http.Request) bool { return hr.Header.Get("X-Variant") == r.Variant })
 			}
-			for _, f := range r.Filters {
+			for fi, f := range r.Filters {
+				if s.Order != 0 && fi%2 == 0 {
+					// registered from inside a Do block: the same call, made where Do stands
+					mf := mkFilter(f)
+					rb.Do(func(b *restful.RouteBuilder) { b.Filter(mf) })
+					continue
+				}
 				rb.Filter(mkFilter(f))
 			}
 			ws.Route(rb.To(func(req *restful.Request, resp *restful.Response) {
@@ -499,6 +510,10 @@ func checkC06(c C06Case, partName string) (vs []*Violation) {
 		hr.Header.Set(c06ReqHeader, strconv.Itoa(i)+suffix)
 		if q.Variant != "" {
 			hr.Header.Set("X-Variant", q.Variant)
+		}
+		if q.Method == "OPTIONS" {
+			hr.Header.Set("Origin", "http://a.com")
+			hr.Header.Set("Access-Control-Request-Method", "GET")
 		}
 		w := httptest.NewRecorder()
 		defer func() {
